@@ -22,6 +22,7 @@ class MemTransport(asyncio.Transport):
         self.received = []  # bytes delivered to this side
         self.blocked = False  # when True writes are never drained (peer stopped reading)
         self._drain_waiters = []
+        self._last_when = 0
         net.transports.append(self)
 
     def get_extra_info(self, name, default=None):
@@ -67,7 +68,7 @@ class MemTransport(asyncio.Transport):
             self.protocol.pause_writing()
             return
         for seg, delay in self.net.segment(self, data):
-            self.loop.call_later(delay, self.peer._deliver, seg)
+            self._schedule(delay, self.peer._deliver, seg)
 
     def _deliver(self, seg):
         if not self.closed and not self.net.dead(self):
@@ -77,7 +78,15 @@ class MemTransport(asyncio.Transport):
     def write_eof(self):
         if not self.eof_sent:
             self.eof_sent = True
-            self.loop.call_later(self.net.latency(self), self.peer._deliver_eof)
+            self._schedule(self.net.latency(self), self.peer._deliver_eof)
+
+    def _schedule(self, delay, cb, *args):
+        # TCP: ordered delivery per direction, whatever the per-segment delays are
+        when = self.loop.time() + delay
+        if when < self._last_when:
+            when = self._last_when
+        self._last_when = when
+        self.loop.call_at(when, cb, *args)
 
     def _deliver_eof(self):
         if not self.closed and not self.net.dead(self):
